@@ -1031,9 +1031,12 @@ class Native:
                 ast.parse(d["sum"][1], mode="eval").body if d.get("sum") else None)
         term, body, lo = self._parsed[name]
         env = {pn: v for (pn, _), v in zip(d["params"], vals)}
-        key = (name,) + tuple(id(v) if isinstance(v, np.ndarray) else v for v in vals)
+        # arrays are keyed by buffer address + layout; the memo value keeps them alive so that the
+        # address cannot be re-used by another (temporary view) array while the key is in the table
+        key = (name,) + tuple((v.__array_interface__["data"][0], v.shape, v.strides)
+                              if isinstance(v, np.ndarray) else v for v in vals)
         if key in self._memo:
-            return self._memo[key]
+            return self._memo[key][0]
         s = self.sub(env)
         s.fail = None
         if d.get("sum"):
@@ -1048,7 +1051,7 @@ class Native:
             r = acc
         else:
             r = s.ev(body)
-        self._memo[key] = r
+        self._memo[key] = (r, vals)
         return r
 
 
